@@ -22,7 +22,7 @@ SAME = {"np.abs", "np.real", "np.imag", "np.conjugate", "np.expand_dims",
         "np.squeeze", "np.sum", "np.array", "np.copy", "np.asarray",
         "np.atleast_1d", "np.swapaxes", "np.roll", "np.flip",
         "np.zeros_like", "np.take_along_axis", "np.negative", "np.maximum",
-        "np.minimum", "np.linalg.norm", "np.clip"}
+        "np.minimum", "np.linalg.norm", "np.clip", "np.hypot"}
 ZERO = {"np.sign", "np.identity", "np.zeros", "np.ones", "utils.identity",
         "utils.zeros", "minkowski", "utils.number", "utils.pi",
         "utils.guess_literal_ring", "np.errstate", "len", "range",
